@@ -303,9 +303,9 @@ Qed.
 
 Lemma revert_contracts_folds b s :
   revert_contracts (changes_of true b) s =
-  rbind (foldM R1 (evs1 b) s) (foldM R2f (evs2 b)).
+  rbind (foldM R1 (revs1 b) s) (foldM R2f (evs2 b)).
 Proof.
-  unfold evs1, evs2. rewrite bind_fold45.
+  unfold revs1, evs2. rewrite bind_fold45.
   unfold revert_contracts, each1, each2, changes_of, R1, R2f.
   cbn [cConf1 cRev1 cSucc1 cFail1 cConf2 cRev2 cSucc2 cRen2 cFail2].
   under_binds.
